@@ -506,9 +506,13 @@ impl GFb127 {
                 let mut ymw = _mm256_shuffle_epi32(ya, 0xFF);
                 ya = _mm256_bslli_epi128(ya, 4);
                 for j in (0..16).rev() {
+                    // (full load then masking: a masked load would make
+                    // the set of accessed lanes depend on secret bits)
                     yd = _mm256_xor_si256(yd,
-                        _mm256_maskload_epi32(
-                            core::mem::transmute(&tab[(i << 4) + j].0), ymw));
+                        _mm256_and_si256(
+                            _mm256_loadu_si256(
+                                core::mem::transmute(&tab[(i << 4) + j].0)),
+                            _mm256_srai_epi32(ymw, 31)));
                     ymw = _mm256_slli_epi32(ymw, 2);
                 }
             }
@@ -945,8 +949,10 @@ impl GFb127 {
                     yao = _mm256_bslli_epi128(yao, 4);
                     for j in (0..8).rev() {
                         yd = _mm256_xor_si256(yd,
-                            _mm256_maskload_epi32(core::mem::transmute(
-                                &Self::HALFTRACE[(i << 3) + j].0), ymw));
+                            _mm256_and_si256(
+                                _mm256_loadu_si256(core::mem::transmute(
+                                    &Self::HALFTRACE[(i << 3) + j].0)),
+                                _mm256_srai_epi32(ymw, 31)));
                         ymw = _mm256_slli_epi32(ymw, 4);
                     }
                 }
